@@ -394,4 +394,163 @@ theorem NInv_run (cfg : Cfg) (s : List Ev) (w : World) (inv : NInv w) : NInv (ru
   | nil => exact inv
   | cons ev s ih => exact ih _ (NInv_applyEv cfg w ev inv)
 
+/-! ### an honoured request = every one of its threads honoured -/
+
+/-- outcomes of the threads of a request when they run one after the other, each alone -/
+def threadsOutcomes (cfg : Cfg) (now : Nat) : Store → List Req → List (Option Outcome)
+  | _, [] => []
+  | st, r :: rest =>
+    let w := run cfg soloSched { store := st, now := now, lock := none, ths := [r.thread] }
+    (w.ths[0]?.bind Thread.outcome) :: threadsOutcomes cfg now w.store rest
+
+theorem threadsOutcomes_burns (cfg : Cfg) (now : Nat) (rs : List BurnReq) : ∀ st : Store,
+    threadsOutcomes cfg now st (rs.map Req.burn) = soloOutcomes cfg now st rs := by
+  induction rs with
+  | nil => intro st; rfl
+  | cons r rest ih => intro st; simp only [List.map_cons, threadsOutcomes, soloOutcomes, Req.thread]; rw [ih]
+
+/-- the s2s nonce loop passes only if every one of its mark threads is honoured (and it has one per presentation) -/
+theorem s2sLoop_ok_threads (cfg : Cfg) (hl : cfg.mark .s2s = .locked) (now : Nat) (ns : List String) : ∀ st : Store,
+    (s2sLoop ⟨cfg.expInclusive, now, cfg.ttl⟩ st ns).1 = .ok →
+    threadsOutcomes cfg now st ((s2sMarks ⟨cfg.expInclusive, now, cfg.ttl⟩ st ns).map Req.mark) = ns.map (fun _ => some Outcome.ok) := by
+  induction ns with
+  | nil => intro st _; rfl
+  | cons n rest ih =>
+    intro st hok
+    unfold s2sMarks
+    unfold s2sLoop at hok
+    by_cases hn : n = ""
+    · simp [hn] at hok
+      exact absurd hok (by decide)
+    · simp only [hn, if_false] at hok ⊢
+      have h := solo_mark_run cfg ({ kind := .s2s, id := n } : MarkReq) hl rfl rfl st now
+      simp only at h
+      unfold pifSeq at hok ⊢
+      simp only [s2sKey] at *
+      cases hg : stGet cfg.expInclusive st now ⟨.mark .s2s, n⟩ with
+      | some v =>
+        simp [hg] at hok
+        exact absurd hok (by decide)
+      | none =>
+        simp only [hg] at hok
+        simp only [List.map_cons, threadsOutcomes, Req.thread]
+        rw [h.1, h.2.1]
+        have hs : soloMark cfg st now { kind := .s2s, id := n } = (.ok, stPut st ⟨.mark .s2s, n⟩ ⟨markVal .s2s, now + cfg.ttl (.mark .s2s)⟩) := by
+          simp [soloMark, MarkReq.key, hg]
+        rw [hs]
+        simp only
+        rw [ih _ hok]
+
+theorem handleS2S_ok_loop (c : Sq) (st : Store) (f : TokenForm) (ns : List String) (h : (handleS2S c st f ns).1 = .ok) :
+    (s2sLoop c st ns).1 = .ok := by
+  unfold handleS2S at h
+  split at h
+  · next st1 heq => rw [heq]
+  · next r hne =>
+    cases hr : s2sLoop c st ns with
+    | mk a st1 =>
+      cases a with
+      | ok => rfl
+      | err c w => rw [hr] at h; simp at h
+      | panic s => rw [hr] at h; simp at h
+
+/-- **an honoured request = every one of its threads honoured** (and it has at least one): whatever request of whatever
+    endpoint is answered 200, each thread it stands for ends `ok` when the threads run one after the other -/
+theorem handleForm_ok_threads (cfg : Cfg) (hg : cfg.gad = .locked) (hm : ∀ m, cfg.mark m = .locked) (hx : ∀ b, cfg.ext b = false)
+    (pk : Pkce) (now : Nat) (st : Store) (f : Form)
+    (hok : (handleForm ⟨cfg.expInclusive, now, cfg.ttl⟩ pk st f).1 = .ok) :
+    ∀ o ∈ threadsOutcomes cfg now st (formThreads ⟨cfg.expInclusive, now, cfg.ttl⟩ pk st f), o = some .ok := by
+  cases f with
+  | token t =>
+    simp only [formThreads, handleForm, handleToken] at hok ⊢
+    by_cases ha : grantAction t.grantType = "handleAccessTokenRequest"
+    · simp only [ha, if_true] at hok ⊢
+      cases htb : t.toBurn pk with
+      | none =>
+        have hc := toBurn_none pk t htb
+        simp [handleCode, hc] at hok
+        exact absurd hok (errAt_ne_ok _ _)
+      | some r =>
+        obtain ⟨hk, hfg, hfd⟩ := toBurn_props pk t r htb
+        have h1 := solo_code_run cfg hg (hx .code) r hk hfg hfd st now
+        have h2 := handleCode_eq_solo cfg cfg.ttl pk now st t r htb
+        rw [hok, codeOutcome_ok] at h2
+        intro o ho
+        simp only [threadsOutcomes, Req.thread, List.mem_singleton] at ho
+        rw [ho, h1.1, ← Option.some.inj h2.1]
+    · simp only [ha, if_false] at hok ⊢
+      by_cases hs : grantAction t.grantType = "handleS2SAccessTokenRequest"
+      · simp only [hs, if_true] at hok ⊢
+        cases hasr : t.assertion with
+        | none => simp [hasr] at hok; exact absurd hok (errAt_ne_ok _ _)
+        | some nonces =>
+          simp only [hasr] at hok ⊢
+          by_cases hc : (!t.submission || !t.scope || t.clientId.isNone) = true
+          · simp [hc] at hok; exact absurd hok (errAt_ne_ok _ _)
+          · simp only [hc, Bool.false_eq_true, if_false] at hok ⊢
+            have hl := handleS2S_ok_loop _ st t nonces hok
+            have h3 := s2sLoop_ok_threads cfg (hm .s2s) now nonces st hl
+            intro o ho
+            rw [h3] at ho
+            simp only [List.mem_map] at ho
+            obtain ⟨_, _, rfl⟩ := ho
+            rfl
+      · simp only [hs, if_false] at hok
+        split at hok <;> (simp only at hok; exact absurd hok (errAt_ne_ok _ _))
+  | response r =>
+    simp only [formThreads, handleForm, handleResponse] at hok ⊢
+    cases hs : r.state with
+    | none => simp [hs] at hok; exact absurd hok (errAt_ne_ok _ _)
+    | some state =>
+      cases hv : r.vpToken with
+      | none => simp [hs, hv] at hok; exact absurd hok (errAt_ne_ok _ _)
+      | some ps =>
+        cases ps with
+        | nil => simp [hs, hv] at hok; exact absurd hok (errAt_ne_ok _ _)
+        | cons p ps =>
+          simp only [hs, hv] at hok ⊢
+          by_cases hk : r.stateKnown = true
+          · by_cases ht : r.tenantOk = true
+            · simp only [hk, ht, Bool.not_true, Bool.or_self, Bool.false_eq_true, if_false] at hok ⊢
+              rw [threadsOutcomes_burns]
+              have h := (validateNonce_eq_threads cfg hg (hx .vpNonce) cfg.ttl now st (p :: ps) state (by intro s; rw [hok]; simp)).2
+              intro o ho
+              rw [h o ho, hok, vpOutcome_ok]
+            · simp [hk, ht] at hok; exact absurd hok (errAt_ne_ok _ _)
+          · simp [hk] at hok; exact absurd hok (errAt_ne_ok _ _)
+  | reqObj r =>
+    simp only [formThreads, handleForm] at hok ⊢
+    have h1 := solo_burn_run cfg hg (reqObjReq r ((stGet cfg.expInclusive st now (reqObjKey r.id)).getD "")) (by simp [reqObjReq])
+      (hx _) rfl rfl rfl st now
+    have h2 := handleReqObj_eq_solo cfg cfg.ttl now st r ((stGet cfg.expInclusive st now (reqObjKey r.id)).getD "")
+      (by intro x hx'; rw [hx']; rfl)
+    intro o ho
+    simp only [threadsOutcomes, Req.thread, List.mem_singleton] at ho
+    rw [ho, h1.1, ← h2.1, hok]
+    simp [reqObjOutcome]
+  | landing t =>
+    simp only [formThreads, handleForm] at hok ⊢
+    by_cases ht : t = ""
+    · simp [ht, handleLanding] at hok
+    · simp only [ht, if_false]
+      have h1 := solo_plain_run cfg hg (landingReq t) (Or.inl rfl) (hx _) rfl rfl rfl st now
+      have h2 := handleLanding_eq_solo cfg cfg.ttl now st t ht
+      intro o ho
+      simp only [threadsOutcomes, Req.thread, List.mem_singleton] at ho
+      rw [ho]
+      have : landingReq t = { kind := .redirect, id := t } := rfl
+      rw [← this, h1.1, ← h2.1, hok]
+      simp [landingOutcome]
+  | dpop r =>
+    simp only [formThreads, handleForm, handleDpop] at hok ⊢
+    cases h1 : r.parses <;> cases h2 : r.matchOk <;> cases h3 : r.athPresent <;> cases h4 : r.athOk <;>
+      simp [h1, h2, h3, h4] at hok ⊢
+    have h := solo_mark_run cfg ({ kind := .jti, id := r.jti } : MarkReq) (hm .jti) rfl rfl st now
+    simp only [threadsOutcomes, Req.thread, List.mem_singleton, forall_eq]
+    rw [h.1]
+    unfold pifSeq at hok
+    unfold soloMark
+    simp only [MarkReq.key, jtiKey] at hok ⊢
+    cases hgt : stGet cfg.expInclusive st now ⟨.mark .jti, r.jti⟩ <;> simp [hgt] at hok ⊢
+
 end Nuts.C05
